@@ -54,6 +54,7 @@ func init() {
 	check.Register("genesis", scnGenesisRoundTrip)
 	check.Register("timeouts", scnTimeouts)
 	check.Register("payaddr-switch", scnPayaddrSwitch)
+	check.Register("lone-pledge", scnLonePledge)
 	check.Register("sponsored-nopay", scnSponsoredNoPay)
 	monitorFactories["C12"] = func() []world.Monitor { return []world.Monitor{NewC12(), NewC05()} }
 	c12life := lifeJobs("C12", 2, 16, map[string]string{"bigtimeout": "1"})
@@ -114,6 +115,9 @@ func init() {
 				if i == 0 {
 					a["recipe"] = "1"
 					a["ops"] = "8"
+				}
+				if i%5 == 1 {
+					a["debt"] = "1" // a pledge-debt row at export time
 				}
 				jobs = append(jobs, check.Job{Prop: "C18", Scenario: "genesis", Seed: seed*67867967 + int64(i), Args: a})
 			}
@@ -223,7 +227,7 @@ func init() {
 		Assumptions: []string{"a restart is a new OS process over the same goleveldb directory; the leader runs in one process without interruption"}})
 	monitorFactories["C02"] = func() []world.Monitor { return []world.Monitor{&C02{}} }
 	check.RegisterSpec(&check.Spec{Prop: "C02", Level: "exploration",
-		Rule: "every ABCI call (and every direct call of the selection functions) runs under recover() and a CPU-time watchdog (a call burning more than 60 CPU-seconds is declared non-terminating; the largest terminating call observed is reported). Workloads: adversarial field values for every message (sizes 0..2^64-1, replicas <=0/huge, durations up to 2^64-1, timeouts 1..2^31-1, ids of 35/36/37 characters, separator-only commit ids, invalid cids/peers/validators) followed by block advance across every scheduled height; generated node populations (3..160 nodes, status bits, reputations around the floor, capacities around the shard size, 0..3 super nodes, stale super-node cursors) with replica counts around the eligible population, silent providers and migrations; direct calls of RandomSP / RandomIndex with seeds {empty, 1 byte, tiny, real 32-byte hashes} and counts near totals; a sweep of parameter sets that pass validation (block reward 0..8e14 around the 4e14 total, baseline, APY, halving/adjustment periods from 11, offline trigger from 1, thresholds); a did:sid owner re-pointing its payment address (second cosmos account, eip155 accounts under both chain references) while orders are in flight that are then refunded by the end blocker, a cancel and a terminate; and the lifecycle / staking / did / fault / authorization walks of the other checks. A halt is a panic escaping InitChain/BeginBlock/EndBlock/Commit or a watchdog firing; a panic recovered inside DeliverTx is compliant and counted. A case is (transaction kind, result code) or (block housekeeping kind); distinct_nontrivial counts distinct cases.",
+		Rule: "every ABCI call (and every direct call of the selection functions) runs under recover() and a CPU-time watchdog (a call burning more than 60 CPU-seconds is declared non-terminating; the largest terminating call observed is reported). Workloads: adversarial field values for every message (sizes 0..2^64-1, replicas <=0/huge, durations up to 2^64-1, timeouts 1..2^31-1, ids of 35/36/37 characters, separator-only commit ids, invalid cids/peers/validators) followed by block advance across every scheduled height; generated node populations (3..160 nodes, status bits, reputations around the floor, capacities around the shard size, 0..3 super nodes, stale super-node cursors) with replica counts around the eligible population, silent providers and migrations; direct calls of RandomSP / RandomIndex with seeds {empty, 1 byte, tiny, real 32-byte hashes} and counts near totals; a sweep of parameter sets that pass validation (block reward 0..8e14 around the 4e14 total, baseline, APY, halving/adjustment periods from 11, offline trigger from 1, thresholds); a lone provider adding and withdrawing capacity in unaligned amounts down to nothing with rewards flowing; a did:sid owner re-pointing its payment address (second cosmos account, eip155 accounts under both chain references) while orders are in flight that are then refunded by the end blocker, a cancel and a terminate; and the lifecycle / staking / did / fault / authorization walks of the other checks. A halt is a panic escaping InitChain/BeginBlock/EndBlock/Commit or a watchdog firing; a panic recovered inside DeliverTx is compliant and counted. A case is (transaction kind, result code) or (block housekeeping kind); distinct_nontrivial counts distinct cases.",
 		Jobs: func(tier string, seed int64) []check.Job {
 			var jobs []check.Job
 			add := func(scn string, n int, args map[string]string) {
@@ -255,6 +259,7 @@ func init() {
 				add("actor", 2, map[string]string{"rounds": "3"})
 				add("genesis", 10, map[string]string{"profile": "renewheavy", "ops": "60", "cont": "60", "drain": "1"})
 				add("payaddr-switch", 8, map[string]string{"rounds": "6"})
+				add("lone-pledge", 8, map[string]string{"rounds": "8"})
 				for _, m := range []string{"migrated", "debt-expire", "debt-release", "queued", "afterroll", "shorter", "longer", "term-reassign", "fp-reassign", "multiversion-migrate", "unaligned", "tiny-reduce", "fp-renewed", "double-migrate"} {
 					add("renewals", 3, map[string]string{"mode": m})
 				}
@@ -271,6 +276,7 @@ func init() {
 				add("renewals", 1, map[string]string{"mode": "queued"})
 				add("genesis", 1, map[string]string{"profile": "mixed", "ops": "25", "cont": "30", "recipe": "1"})
 				add("payaddr-switch", 2, map[string]string{"rounds": "4"})
+				add("lone-pledge", 2, map[string]string{"rounds": "8"})
 			}
 			return jobs
 		},
@@ -361,8 +367,10 @@ func init() {
 		Assumptions: []string{"authorization of each probe is known by construction from the request factory (which key signed which bytes, role of that DID for the model at that moment)"}})
 
 	check.RegisterSpec(&check.Spec{Prop: "C13", Level: "exploration",
-		Rule:        "seeded random walks over the order lifecycle (store/ready/complete/update/force-push/renew/terminate/cancel/migrate/claim/capacity changes, silent providers, block advance across every scheduled height); after every block all relations are evaluated on the committed state. A case is the shape (bucketed counts of orders, shards, models, pending timeouts, pending expiries) of a state on which the relations were evaluated; distinct_nontrivial counts distinct shapes with at least one order or model.",
-		Jobs:        withExtra(lifeJobs("C13", 5, 64, nil), recipes("C13", "migrated", "afterroll", "longer", "tiny-reduce", "double-migrate", "fp-renewed", "terminate+twin", "migrated+twin", "term-migrating-renewed", "fp-migrating-renewed", "cancel-old-expired", "exam-during-migration")),
+		Rule: "seeded random walks over the order lifecycle (store/ready/complete/update/force-push/renew/terminate/cancel/migrate/claim/capacity changes, silent providers, block advance across every scheduled height); after every block all relations are evaluated on the committed state. A case is the shape (bucketed counts of orders, shards, models, pending timeouts, pending expiries) of a state on which the relations were evaluated; distinct_nontrivial counts distinct shapes with at least one order or model.",
+		Jobs: withExtra(withExtra(lifeJobs("C13", 5, 64, nil), recipes("C13", "migrated", "afterroll", "longer", "tiny-reduce", "double-migrate", "fp-renewed", "terminate+twin", "migrated+twin", "term-migrating-renewed", "fp-migrating-renewed", "cancel-old-expired", "exam-during-migration")), func(tier string, seed int64) []check.Job {
+			return []check.Job{{Prop: "C13", Scenario: "recreate", Seed: seed*15487469 + 1, Args: map[string]string{"mode": "two-unnamed", "alias": "none"}}, {Prop: "C13", Scenario: "recreate", Seed: seed*15487469 + 2, Args: map[string]string{"mode": "cancel", "alias": "none"}}}
+		}),
 		MinCases:    map[string]int{"quick": 10, "thorough": 30},
 		Assumptions: []string{"state is read through the keepers' own getters over the committed multistore", "workloads reach only the states the seeded walks produce"}})
 	check.Register("recreate", scnRecreate)
@@ -371,7 +379,7 @@ func init() {
 	lifeRule := "seeded random walks over the order lifecycle — store (sizes around the 1e-6 price rounding, replica 1-3, durations 3600-6000, sponsored payment, owner-submitted + Ready), staggered completion with silent providers, update, force-push, renew (several in a row, shorter and longer), terminate at every phase, cancel, migrate, claim, capacity add/remove, a provider without liquid balance (debt paths) — with block advance to just before / at / after every scheduled height and a final drain across all schedules; five weight profiles. "
 	check.RegisterSpec(&check.Spec{Prop: "C04", Level: "exploration",
 		Rule:        lifeRule + "The monitor decides every store/renew charge against the quote and the rightful payer, classifies every transfer touching the order/market escrows, keeps a reference income per provider (unit price x bytes x blocks over observed holdings) and a conservation balance with a dust bound of one coin per charge/refund settlement. A case is a charge shape (size, replicas, sponsored), an ending path (expiry, rotation to renewal, terminate, cancel, timeout-cancel, replica reduction, force-push) or a claim class; distinct_nontrivial counts distinct cases.",
-		Jobs:        withExtra(lifeJobs("C04", 5, 64, nil), recipes("C04", "shorter", "queued", "migrated", "debt-release", "term-reassign", "fp-reassign", "fp-renewed", "double-migrate", "terminate+twin")),
+		Jobs:        withExtra(lifeJobs("C04", 5, 64, nil), recipes("C04", "shorter", "queued", "migrated", "debt-release", "term-reassign", "fp-reassign", "fp-renewed", "double-migrate", "terminate+twin", "renew-between-expiries")),
 		MinCases:    map[string]int{"quick": 12, "thorough": 25},
 		Assumptions: []string{"bank transfer events are complete; prices are exact in 18 decimals"}})
 	check.RegisterSpec(&check.Spec{Prop: "C05", Level: "exploration",
@@ -389,6 +397,9 @@ func init() {
 				for _, m := range []string{"cancel", "timeout"} {
 					jobs = append(jobs, check.Job{Prop: "C05", Scenario: "recreate", Seed: seed*373587883 + int64(len(jobs)), Args: map[string]string{"mode": m, "alias": "none"}})
 				}
+				for _, m := range []string{"update-cancel", "update-timeout"} {
+					jobs = append(jobs, check.Job{Prop: "C05", Scenario: "recreate", Seed: seed*373587883 + int64(len(jobs)), Args: map[string]string{"mode": m}})
+				}
 			}
 			return jobs
 		}),
@@ -397,13 +408,14 @@ func init() {
 	check.RegisterSpec(&check.Spec{Prop: "C06", Level: "exploration",
 		Rule: lifeRule + "Plus a recipe with a sponsor-paid order whose owner DID has no payment address (refund into the did module). On every block-boundary snapshot the four escrow inequalities are evaluated against liabilities recomputed from the exported records; entitled payouts that fail are flagged. A case is the bucketed shape of a state (orders, live shards, queued renewals, debts, rewards, DID balances); distinct_nontrivial counts distinct shapes.",
 		Jobs: withExtra(lifeJobs("C06", 5, 48, nil), func(tier string, seed int64) []check.Job {
-			return append(recipes("C06", "debt-release", "queued", "debt-expire", "term-reassign", "debt-multi")(tier, seed), check.Job{Prop: "C06", Scenario: "sponsored-nopay", Seed: seed*472882027 + 1})
+			return append(recipes("C06", "debt-release", "queued", "debt-expire", "term-reassign", "debt-multi", "renew-between-expiries", "unaligned")(tier, seed), check.Job{Prop: "C06", Scenario: "sponsored-nopay", Seed: seed*472882027 + 1})
 		}),
 		MinCases:    map[string]int{"quick": 8, "thorough": 16},
 		Assumptions: []string{"liabilities are recomputed from exported module state"}})
 	check.RegisterSpec(&check.Spec{Prop: "C07", Level: "exploration",
-		Rule:        lifeRule + "For every transaction, begin block and end block the monitor compares, per provider, coins moved to/from the node escrow with the change of recorded collateral net of debt, checks recipients, withdrawal against free capacity of the pre-state, and row bounds. A case is (operation, debts present, number of node-escrow flows) or (withdrawal: leaves zero free / capacity in use); distinct_nontrivial counts distinct cases.",
-		Jobs:        withExtra(lifeJobs("C07", 5, 48, nil), recipes("C07", "shorter", "longer", "debt-release", "debt-expire", "migrated", "fp-renewed", "longer+twin", "debt-multi")),
+		Rule: lifeRule + "For every transaction, begin block and end block the monitor compares, per provider, coins moved to/from the node escrow with the change of recorded collateral net of debt, checks recipients, withdrawal against free capacity of the pre-state, and row bounds; at the end of drained walks and in the lone-provider scenario (capacity added in sizes around the 1e6-byte pricing unit) a provider that stores nothing asks for its whole capacity back and the whole capacity pledge has to return. A case is (operation, debts present, number of node-escrow flows) or (withdrawal: leaves zero free / capacity in use); distinct_nontrivial counts distinct cases.",
+		Jobs: withExtra(withExtra(lifeJobs("C07", 5, 48, nil), recipes("C07", "shorter", "longer", "debt-release", "debt-expire", "migrated", "fp-renewed", "longer+twin", "debt-multi")),
+			simpleJobs("C07", "lone-pledge", 1, 6, map[string]string{"rounds": "8"}, map[string]string{"rounds": "8"})),
 		MinCases:    map[string]int{"quick": 10, "thorough": 20},
 		Assumptions: []string{"reward claims are decided by C08"}})
 	check.RegisterSpec(&check.Spec{Prop: "C08", Level: "exploration",
@@ -421,10 +433,15 @@ func init() {
 				}
 				jobs = append(jobs, check.Job{Prop: "C08", Scenario: "life", Seed: seed*573259391 + int64(i), Args: a})
 			}
+			for i := 0; i < n; i += 2 {
+				// later halving ages (cumulative reward preset in genesis), pledge below the baseline
+				jobs = append(jobs, check.Job{Prop: "C08", Scenario: "life", Seed: seed*573259391 + 3000 + int64(i), Args: map[string]string{"profile": "rewards", "age": fmt.Sprint(1 + (i/2)%3)}})
+			}
 			for i := 0; i < cfg; i++ {
 				jobs = append(jobs, check.Job{Prop: "C08", Scenario: "config", Seed: seed*573259391 + 1000 + int64(i), Args: map[string]string{"config": fmt.Sprint(int(seed)*13 + i), "ops": "16"}})
 			}
 			jobs = append(jobs, recipes("C08", "unaligned", "unaligned", "debt-release+rewards", "debt-expire+rewards", "queued+rewards")(tier, seed)...)
+			jobs = append(jobs, check.Job{Prop: "C08", Scenario: "lone-pledge", Seed: seed*573259391 + 5000, Args: map[string]string{"rounds": "8"}})
 			return jobs
 		},
 		MinCases:    map[string]int{"quick": 4, "thorough": 8},
@@ -528,6 +545,17 @@ func scnLife(ctx *check.JobCtx) {
 				prev(np)
 			}
 			np.Baseline = sdk.NewInt64Coin(chain.Denom, bl)
+		}
+	}
+	if age := ctx.ArgInt("age", 0); age > 0 {
+		// start in a later halving age with the baseline rate between the halved and the full block reward
+		p.StartAge = uint(age)
+		prev := p.Params
+		p.Params = func(np *nodetypes.Params) {
+			if prev != nil {
+				prev(np)
+			}
+			np.AnnualPercentageYield = "2.5"
 		}
 	}
 	l := SetupLife(w, p)
